@@ -1389,3 +1389,10 @@ for _id, _exp, _init, _body, _rule, _what in [
     if _id == "rf-c03-indegree-raw-weights":
         _edits.append((UT, "    A = (A != 0).astype(int)\n    # Check that there are no undirected edges\n", "    A = A.astype(float)\n    # Check that there are no undirected edges\n"))
     V(_id, "C03", _exp, UT, _K_SRC, _i, rule=_rule, what=_what, more=_edits, **({} if _exp == "silent" else {"accept_inconclusive": True}))
+
+# ------------------------------------------------------------------------------- C10, the work list of dag_to_icpdag as a for-loop (refactor round 2)
+_C10_WL = "    while len(directed_edges) > 0:\n        print(directed_edges) if debug else None\n        (x, y) = directed_edges.pop()\n"
+V("rf-c10-worklist-index-loop", "C10", "silent", UT, _C10_WL, "    for k in range(len(directed_edges) - 1, -1, -1):\n        (x, y) = directed_edges[k]\n", what="index loop instead of pop()")
+V("rf-c10-worklist-for", "C10", "silent", UT, _C10_WL, "    for (x, y) in reversed(directed_edges):\n", what="for-loop over the reversed list")
+V("rf-c10-worklist-skip-last", "C10", "fire", UT, _C10_WL, "    for k in range(len(directed_edges) - 1):\n        (x, y) = directed_edges[k]\n", rule="DEPENDS.empty-I", what="index loop leaves out the last edge", accept_inconclusive=True)
+V("rf-c10-worklist-same-edge", "C10", "fire", UT, _C10_WL, "    for k in range(len(directed_edges)):\n        (x, y) = directed_edges[0]\n", rule="ORIENT.clear", what="always the first edge")
